@@ -61,3 +61,9 @@ func VHJSONLoad() {
 	c := VGMapOf(ks, xs)
 	containers.VJSONLoad(vJSON(c))
 }
+
+// VHHistory: D operations in a row from the constructor (see VMapHistory).
+func VHHistory() {
+	m := New[int, int]()
+	maps.VMapHistory(m, maps.VKind{Name: "HashBidiMap", Bidi: true, GetKey: m.GetKey, Inv: func() { VInv(m) }})
+}
